@@ -5,6 +5,9 @@ rename    every local variable (not parameters) of every simple function gets a 
 log       a `logger.debug(...)` line at the start of every function of every module that has a module-level `logger`
 noann     parameter / return annotations of every function removed, annotated locals turned into plain assignments
           (class-level annotations stay: dataclass fields need them)
+rettmp    every `return <expression>` becomes `_result = <expression>; return _result`
+invert    every `if C: A else: B` (unless both branches end in return / raise / continue / break) becomes `if not C: B else: A`
+elsewrap  every `if C: ...return/raise/continue/break` followed by more statements gets those statements as its else branch
 
 A check must report exactly what it reports on the real tree (the known findings included, under the same keys).
 """
@@ -87,8 +90,74 @@ class _NoAnn(ast.NodeTransformer):
         return node
 
 
+class _RetTmp(ast.NodeTransformer):
+    def _fix(self, body):
+        out = []
+        for st in body:
+            if isinstance(st, ast.Return) and st.value is not None and not isinstance(st.value, (ast.Name, ast.Constant)) and not any(isinstance(x, (ast.Yield, ast.YieldFrom, ast.Await)) for x in ast.walk(st.value)):
+                out.append(ast.copy_location(ast.Assign(targets=[ast.Name(id="_result", ctx=ast.Store())], value=st.value), st))
+                out.append(ast.copy_location(ast.Return(value=ast.Name(id="_result", ctx=ast.Load())), st))
+            else:
+                out.append(st)
+        return out
+
+    def generic_visit(self, node):
+        super().generic_visit(node)
+        for f in ("body", "orelse", "finalbody"):
+            b = getattr(node, f, None)
+            if isinstance(b, list) and b and isinstance(b[0], ast.stmt):
+                setattr(node, f, self._fix(b))
+        return node
+
+
+def _ends(body):
+    if not body:
+        return False
+    last = body[-1]
+    if isinstance(last, (ast.Return, ast.Raise, ast.Continue, ast.Break)):
+        return True
+    if isinstance(last, ast.If):
+        return bool(last.orelse) and _ends(last.body) and _ends(last.orelse)
+    if isinstance(last, ast.Try):
+        main = _ends(last.orelse) if last.orelse else _ends(last.body)
+        return (bool(last.finalbody) and _ends(last.finalbody)) or (main and all(_ends(h.body) for h in last.handlers))
+    if isinstance(last, ast.With):
+        return _ends(last.body)
+    return False
+
+
+class _Invert(ast.NodeTransformer):
+    def visit_If(self, node):
+        self.generic_visit(node)
+        # (an if/else whose branches both end in return / raise is left alone: the analyser's normal form keeps its orientation)
+        if node.orelse and node.body and not (_ends(node.body) and _ends(node.orelse)):
+            t = node.test
+            nt = t.operand if isinstance(t, ast.UnaryOp) and isinstance(t.op, ast.Not) else ast.UnaryOp(op=ast.Not(), operand=t)
+            return ast.copy_location(ast.If(test=nt, body=node.orelse, orelse=node.body), node)
+        return node
+
+
+class _ElseWrap(ast.NodeTransformer):
+    def _fix(self, body):
+        for i, st in enumerate(body):
+            if isinstance(st, ast.If) and not st.orelse and st.body and isinstance(st.body[-1], (ast.Return, ast.Raise, ast.Continue, ast.Break)) and i + 1 < len(body):
+                st.orelse = self._fix(body[i + 1:])
+                return body[: i + 1]
+        return body
+
+    def generic_visit(self, node):
+        super().generic_visit(node)
+        if isinstance(node, (ast.FunctionDef, ast.AsyncFunctionDef, ast.For, ast.While, ast.With, ast.If, ast.Try, ast.ExceptHandler)):
+            for f in ("body", "orelse", "finalbody"):
+                b = getattr(node, f, None)
+                if isinstance(b, list) and b and isinstance(b[0], ast.stmt):
+                    setattr(node, f, self._fix(b))
+        return node
+
+
 def overlays(root: str) -> dict[str, dict[str, str]]:
     un, rn, lg, na = {}, {}, {}, {}
+    rt, iv, ew = {}, {}, {}
     for dp, _dn, fn in os.walk(os.path.join(root, "sharepoint2text")):
         if "tests" in dp.split(os.sep):
             continue
@@ -108,4 +177,8 @@ def overlays(root: str) -> dict[str, dict[str, str]]:
             if any(isinstance(n, ast.Assign) and any(isinstance(t, ast.Name) and t.id == "logger" for t in n.targets) for n in tree.body):
                 lg[rel] = ast.unparse(ast.fix_missing_locations(_Log().visit(ast.parse(src)))) + "\n"
             na[rel] = ast.unparse(ast.fix_missing_locations(_NoAnn().visit(ast.parse(src)))) + "\n"
-    return {"whole-tree-unparse": un, "whole-tree-local-rename": rn, "whole-tree-debug-log": lg, "whole-tree-no-annotations": na}
+            rt[rel] = ast.unparse(ast.fix_missing_locations(_RetTmp().visit(ast.parse(src)))) + "\n"
+            iv[rel] = ast.unparse(ast.fix_missing_locations(_Invert().visit(ast.parse(src)))) + "\n"
+            ew[rel] = ast.unparse(ast.fix_missing_locations(_ElseWrap().visit(ast.parse(src)))) + "\n"
+    return {"whole-tree-unparse": un, "whole-tree-local-rename": rn, "whole-tree-debug-log": lg, "whole-tree-no-annotations": na,
+            "whole-tree-return-temp": rt, "whole-tree-if-inverted": iv, "whole-tree-else-after-exit": ew}
